@@ -30,6 +30,12 @@ CHECKS = {
  'C19': dict(level='exploration', ref='§5 C19', world='time',
    text="Seeded search over clock schedules: a run-private param.Time clock is jumped forward, backward, to repeated times, to -1 and far away while Number parameters driven by numbergen generators (names/seeds repeated across instances, arithmetic compositions, one impure counter) are read, double-read, inspected, forced, state-pushed/popped and swapped, inside nested time contexts left normally or by exception; every read is compared with a fresh generator of the same spec at that time; context exit must restore time (value and type), timestep and until.",
    tech="deterministic simulation with a simulated clock: seeded time jumps (backward, repeated, sentinel, huge) and context faults; fresh-generator table keyed by (generator, time) as oracle"),
+ 'C06': dict(level='exploration', ref='§5 C06', world='depends',
+   text="Seeded search over generated class families (single class, chains, fork, diamond) with 1-3 depends(watch=True) methods over parameters, a Parameter-attribute spec and a method dependency, overrides that re-decorate / drop the decorator / inherit, on_init and queued variants and function-form dependencies, driven by programs of set / same-value set / update / batch / attribute set / construction; per operation the multiset of (defining class, method) invocations must equal a dependency-closure model along the Python MRO; method_dependencies() is cross-checked.",
+   tech="deterministic simulation over generated class hierarchies x operation programs, dependency-closure reference model (exact invocation multiset per operation)"),
+ 'C07': dict(level='exploration', ref='§5 C07', world='depends',
+   text="Seeded search over attach / replace / detach histories at every level of dependency paths of depth 1-3 (several dependencies through one sub-object, 'a.b.param'), with a pool of reusable nodes so detached objects stay alive and get poked, biased to equal-valued, first-dependency-only and later-dependency-only swaps; a method must run exactly once iff a value reached through a path that resolves before and after changed, never for detached objects, and objects no longer reachable from the parent must be back at their watcher baseline.",
+   tech="deterministic simulation of membership-change histories (attach/replace/detach) with an attachment-path reference model and a watcher-leak baseline"),
  'C08': dict(level='exploration', ref='§5 C08', world='refs',
    text="Seeded search over histories of source updates, links (Parameter / bind / two-source bind / depends method / rx expression / nested list or dict of these, made in the constructor or later), plain overrides, relinks and update() contexts on 1-3 targets with five allow_refs parameters; after every step every linked parameter must equal its reference evaluated on the model's source values, unlinked parameters must not move, unreferenced sources must carry no extra watcher and update contexts must restore value and link.",
    tech="deterministic simulation of link histories: link-map reference model, mirror invariant and watcher-leak baseline after every step"),
